@@ -212,6 +212,9 @@ func (t CollectionPath) ofItemCollection(col ItemCollection) Item {
 }
 
 func (t CollectionPath) ofObject(ob *Object) Item {
+	if ob == nil {
+		return nil
+	}
 	var it Item
 	switch t {
 	case Likes:
@@ -227,6 +230,9 @@ func (t CollectionPath) ofObject(ob *Object) Item {
 	return it
 }
 func (t CollectionPath) ofActor(a *Actor) Item {
+	if a == nil {
+		return nil
+	}
 	var it Item
 	switch t {
 	case Inbox:
